@@ -2,6 +2,8 @@
 """Write seeded/<id>/meta.json and seeded/RESULTS.md from build/mutres/*.txt (outputs of tools/run_mutations.sh)."""
 import os, re, json, glob
 ROOT = "/verif"
+import sys
+RES = sys.argv[1] if len(sys.argv) > 1 else ROOT + "/build"
 rows = []
 for d in sorted(glob.glob(ROOT + "/seeded/*/")):
     name = os.path.basename(d.rstrip("/"))
@@ -10,10 +12,12 @@ for d in sorted(glob.glob(ROOT + "/seeded/*/")):
         meta["kind"] = "reverted fix"
         res_file = ROOT + "/build/mutres/%s.txt" % name
     else:
-        pid, n = name.split("-")
+        parts = name.split("-")
+        pid, n = parts[0], parts[-1]
+        rnd = "2" if "r2" in parts else ""
         meta["breaks_property"] = pid
         meta["kind"] = "written by an independent sub-agent that saw only the property text and a scratch worktree"
-        res_file = ROOT + "/build/mutres/%s-%s.txt" % (pid, n)
+        res_file = RES + "/mutres%s/%s-%s.txt" % (rnd, pid, n)
         notes = d + "notes.md"
         if os.path.exists(notes):
             meta["needs_to_manifest"] = open(notes).read().strip()[:1500]
